@@ -18,6 +18,8 @@ import Mathlib.Tactic.Positivity
 set_option linter.unusedSimpArgs false
 set_option linter.unusedSectionVars false
 set_option linter.unusedVariables false
+set_option linter.unusedTactic false
+set_option linter.unreachableTactic false
 namespace ImathVerif.C16
 open ImathVerif ImathVerif.FrustumSpec
 variable {α : Type} [Field α] [LinearOrder α] [IsStrictOrderedRing α]
@@ -214,5 +216,195 @@ theorem mul_sub_le_abs_mul {a q c e : α} (h : |q - c| ≤ e) : a * q ≤ a * c 
   have h1 : |a * (q - c)| ≤ |a| * e := by rw [abs_mul]; exact mul_le_mul_of_nonneg_left h (abs_nonneg a)
   rw [abs_le] at h1
   constructor <;> nlinarith [h1.1, h1.2]
+
+/-! ## frustum-specific helper facts -/
+theorem cross_top (n l r t : α) : cross (vsub ⟨r, t, -n⟩ ⟨0, 0, 0⟩) (vsub ⟨l, t, -n⟩ ⟨0, 0, 0⟩) = ⟨0, n * (r - l), t * (r - l)⟩ := by
+  simp only [cross, vsub]; congr 1 <;> ring
+theorem cross_right (n r t b : α) : cross (vsub ⟨r, b, -n⟩ ⟨0, 0, 0⟩) (vsub ⟨r, t, -n⟩ ⟨0, 0, 0⟩) = ⟨n * (t - b), 0, r * (t - b)⟩ := by
+  simp only [cross, vsub]; congr 1 <;> ring
+theorem cross_bottom (n l r b : α) : cross (vsub ⟨l, b, -n⟩ ⟨0, 0, 0⟩) (vsub ⟨r, b, -n⟩ ⟨0, 0, 0⟩) = ⟨0, -(n * (r - l)), -(b * (r - l))⟩ := by
+  simp only [cross, vsub]; congr 1 <;> ring
+theorem cross_left (n l t b : α) : cross (vsub ⟨l, t, -n⟩ ⟨0, 0, 0⟩) (vsub ⟨l, b, -n⟩ ⟨0, 0, 0⟩) = ⟨-(n * (t - b)), 0, -(l * (t - b))⟩ := by
+  simp only [cross, vsub]; congr 1 <;> ring
+/-- a plane set from an axis unit vector: the plane equation is that coordinate minus the distance -/
+theorem planeND_axis_eval {len : V3 α → α} (h : LenSpec len) (nv : V3 α) (hv : normSq nv = 1) (d : α) (p : V3 α) :
+    planeEval (planeND len nv d) p = vdot nv p - d := by
+  rw [planeND_eval h nv d (by rw [hv]; exact one_ne_zero), lenSpec_eq_one h nv hv]; simp
+/-- three points whose cross product is a positive multiple `k·u` of a unit vector `u` give the plane
+`Plane3::set (u, u·p1)` -/
+theorem planeThroughIf_of_cross {len : V3 α → α} (h : LenSpec len) (p1 p2 p3 u : V3 α) (k d : α) (hk : 0 < k)
+    (hu : normSq u = 1) (hc : cross (vsub p2 p1) (vsub p3 p1) = ⟨k * u.x, k * u.y, k * u.z⟩) (hd : vdot u p1 = d) :
+    planeThroughIf len p1 p2 p3 = planeND len u d := by
+  have hl : len ⟨k * u.x, k * u.y, k * u.z⟩ = k := by
+    obtain ⟨h0, h1⟩ := h ⟨k * u.x, k * u.y, k * u.z⟩
+    have h2 : normSq (⟨k * u.x, k * u.y, k * u.z⟩ : V3 α) = k * k := by
+      simp only [normSq] at hu ⊢
+      have : k * u.x * (k * u.x) + k * u.y * (k * u.y) + k * u.z * (k * u.z) = k * k * (u.x * u.x + u.y * u.y + u.z * u.z) := by ring
+      rw [this, hu, mul_one]
+    rw [h2] at h1
+    have : (len (⟨k * u.x, k * u.y, k * u.z⟩ : V3 α) - k) * (len (⟨k * u.x, k * u.y, k * u.z⟩ : V3 α) + k) = 0 := by
+      have e : ∀ x : α, (x - k) * (x + k) = x * x - k * k := fun x => by ring
+      rw [e, h1]; ring
+    rcases mul_eq_zero.mp this with h3 | h3
+    · linarith
+    · linarith
+  have h1 : len u = 1 := lenSpec_eq_one h u hu
+  have hk' := ne_of_gt hk
+  rw [planeThroughIf_eq _ _ _ (by rw [hc, hl]; exact hk')]
+  subst hd
+  simp only [planeThrough, planeND, normalizeWith, hc, hl, h1, vdot, div_one, mul_div_cancel_left₀ _ hk']
+theorem planeThrough_near {len : V3 α → α} (h : LenSpec len) (n l r t b : α) (hk : 0 < (r - l) * (t - b)) :
+    planeThroughIf len ⟨l, b, -n⟩ ⟨r, b, -n⟩ ⟨r, t, -n⟩ = planeND len ⟨0, 0, 1⟩ (-n) := by
+  refine planeThroughIf_of_cross h _ _ _ ⟨0, 0, 1⟩ ((r - l) * (t - b)) _ hk (by simp [normSq]) ?_ (by simp [vdot])
+  simp only [cross, vsub]; congr 1 <;> ring
+theorem planeThrough_far {len : V3 α → α} (h : LenSpec len) (f l r t b : α) (hk : 0 < (r - l) * (t - b)) :
+    planeThroughIf len ⟨l, b, -f⟩ ⟨l, t, -f⟩ ⟨r, t, -f⟩ = planeND len ⟨0, 0, -1⟩ f := by
+  refine planeThroughIf_of_cross h _ _ _ ⟨0, 0, -1⟩ ((r - l) * (t - b)) _ hk (by simp [normSq]) ?_ (by simp [vdot])
+  simp only [cross, vsub]; congr 1 <;> ring
+
+/-- `Line3::operator()`: the point at parameter `u` -/
+def linePoint (L : Line3 α) (u : α) : V3 α := ⟨L.pos.x + L.dir.x * u, L.pos.y + L.dir.y * u, L.pos.z + L.dir.z * u⟩
+
+/-! ## the FrustumTest queries as functions of six planes -/
+abbrev Planes6 (α : Type) := Plane3 α × Plane3 α × Plane3 α × Plane3 α × Plane3 α × Plane3 α
+/-- all six normals have length at most 1 (true of every result of `planes (p, M)`: see `planesM_*_normals_le_one`) -/
+def normalsLeOne (P : Plane3 α × Plane3 α × Plane3 α × Plane3 α × Plane3 α × Plane3 α) : Prop :=
+  normSq P.1.normal ≤ 1 ∧ normSq P.2.1.normal ≤ 1 ∧ normSq P.2.2.1.normal ≤ 1 ∧ normSq P.2.2.2.1.normal ≤ 1 ∧
+  normSq P.2.2.2.2.1.normal ≤ 1 ∧ normSq P.2.2.2.2.2.normal ≤ 1
+/-- the six-way early-out chain of FrustumTest -/
+theorem six_chain_true (a0 a1 a2 a3 a4 a5 : α) :
+    (if 0 ≤ a0 then false else if 0 ≤ a1 then false else if 0 ≤ a2 then false else if 0 ≤ a3 then false else
+      if 0 ≤ a4 then false else if 0 ≤ a5 then false else true) = true ↔
+    (a0 < 0 ∧ a1 < 0 ∧ a2 < 0 ∧ a3 < 0 ∧ a4 < 0 ∧ a5 < 0) := by
+  split_ifs <;> simp_all [not_le]
+theorem six_chain_false (a0 a1 a2 a3 a4 a5 : α) :
+    (if 0 ≤ a0 then false else if 0 ≤ a1 then false else if 0 ≤ a2 then false else if 0 ≤ a3 then false else
+      if 0 ≤ a4 then false else if 0 ≤ a5 then false else true) = false ↔
+    (0 ≤ a0 ∨ 0 ≤ a1 ∨ 0 ≤ a2 ∨ 0 ≤ a3 ∨ 0 ≤ a4 ∨ 0 ≤ a5) := by
+  split_ifs <;> simp_all [not_le]
+def chain6 (a0 a1 a2 a3 a4 a5 : α) : Bool :=
+  if 0 ≤ a0 then false else if 0 ≤ a1 then false else if 0 ≤ a2 then false else if 0 ≤ a3 then false else
+    if 0 ≤ a4 then false else if 0 ≤ a5 then false else true
+def sphereTerm (pl : Plane3 α) (s : Sphere3 α) (sgn : α) : α :=
+  pl.normal.x * s.center.x + pl.normal.y * s.center.y + pl.normal.z * s.center.z + sgn * s.radius - pl.distance
+def boxTerm (pl : Plane3 α) (bx : Box3 α) (sgn : α) : α :=
+  pl.normal.x * ((bx.min.x + bx.max.x) / 2) + pl.normal.y * ((bx.min.y + bx.max.y) / 2) + pl.normal.z * ((bx.min.z + bx.max.z) / 2)
+    + sgn * (sabs pl.normal.x * (bx.max.x - (bx.min.x + bx.max.x) / 2) + sabs pl.normal.y * (bx.max.y - (bx.min.y + bx.max.y) / 2)
+             + sabs pl.normal.z * (bx.max.z - (bx.min.z + bx.max.z) / 2)) - pl.distance
+def boxEmpty (bx : Box3 α) : Prop := bx.max.x < bx.min.x ∨ bx.max.y < bx.min.y ∨ bx.max.z < bx.min.z
+def ftSphere (P : Planes6 α) (s : Sphere3 α) (sgn : α) : Bool :=
+  chain6 (sphereTerm P.1 s sgn) (sphereTerm P.2.1 s sgn) (sphereTerm P.2.2.1 s sgn) (sphereTerm P.2.2.2.1 s sgn)
+    (sphereTerm P.2.2.2.2.1 s sgn) (sphereTerm P.2.2.2.2.2 s sgn)
+def ftBox (P : Planes6 α) (bx : Box3 α) (sgn : α) : Bool :=
+  if bx.max.x < bx.min.x then false else if bx.max.y < bx.min.y then false else if bx.max.z < bx.min.z then false else
+  chain6 (boxTerm P.1 bx sgn) (boxTerm P.2.1 bx sgn) (boxTerm P.2.2.1 bx sgn) (boxTerm P.2.2.2.1 bx sgn)
+    (boxTerm P.2.2.2.2.1 bx sgn) (boxTerm P.2.2.2.2.2 bx sgn)
+theorem ftSphere_eq (P : Planes6 α) (s : Sphere3 α) (sgn : α) (a0 a1 a2 a3 a4 a5 : α)
+    (h0 : a0 = sphereTerm P.1 s sgn) (h1 : a1 = sphereTerm P.2.1 s sgn) (h2 : a2 = sphereTerm P.2.2.1 s sgn)
+    (h3 : a3 = sphereTerm P.2.2.2.1 s sgn) (h4 : a4 = sphereTerm P.2.2.2.2.1 s sgn) (h5 : a5 = sphereTerm P.2.2.2.2.2 s sgn) :
+    chain6 a0 a1 a2 a3 a4 a5 = ftSphere P s sgn := by
+  subst h0 h1 h2 h3 h4 h5; rfl
+theorem ftBox_eq (P : Planes6 α) (bx : Box3 α) (sgn : α) (a0 a1 a2 a3 a4 a5 : α)
+    (h0 : a0 = boxTerm P.1 bx sgn) (h1 : a1 = boxTerm P.2.1 bx sgn) (h2 : a2 = boxTerm P.2.2.1 bx sgn)
+    (h3 : a3 = boxTerm P.2.2.2.1 bx sgn) (h4 : a4 = boxTerm P.2.2.2.2.1 bx sgn) (h5 : a5 = boxTerm P.2.2.2.2.2 bx sgn) :
+    (if bx.max.x < bx.min.x then false else if bx.max.y < bx.min.y then false else if bx.max.z < bx.min.z then false else
+      chain6 a0 a1 a2 a3 a4 a5) = ftBox P bx sgn := by
+  subst h0 h1 h2 h3 h4 h5; rfl
+/-- per plane: a ball whose centre is at least `radius` outside the plane has no point strictly inside it -/
+theorem sphere_out (pl : Plane3 α) (s : Sphere3 α) (q : V3 α) (hn : normSq pl.normal ≤ 1) (hr : 0 ≤ s.radius)
+    (hq : sphereMem s q)
+    (h : 0 ≤ pl.normal.x * s.center.x + pl.normal.y * s.center.y + pl.normal.z * s.center.z - s.radius - pl.distance) :
+    ¬ planeEval pl q < 0 := by
+  have := dot_le_radius (-pl.normal.x) (-pl.normal.y) (-pl.normal.z) (q.x - s.center.x) (q.y - s.center.y) (q.z - s.center.z)
+    s.radius (by simp only [normSq] at hn; linarith) hr hq
+  simp only [planeEval, not_lt]
+  linarith
+/-- per plane: a ball whose centre is more than `radius` inside the plane lies strictly inside it -/
+theorem sphere_in (pl : Plane3 α) (s : Sphere3 α) (q : V3 α) (hn : normSq pl.normal ≤ 1) (hr : 0 ≤ s.radius)
+    (hq : sphereMem s q)
+    (h : pl.normal.x * s.center.x + pl.normal.y * s.center.y + pl.normal.z * s.center.z + s.radius - pl.distance < 0) :
+    planeEval pl q < 0 := by
+  have := dot_le_radius pl.normal.x pl.normal.y pl.normal.z (q.x - s.center.x) (q.y - s.center.y) (q.z - s.center.z)
+    s.radius hn hr hq
+  simp only [planeEval]
+  linarith
+theorem box_bounds (pl : Plane3 α) (bx : Box3 α) (q : V3 α) (hq : boxMem bx q) :
+    let cx := (bx.min.x + bx.max.x) / 2; let cy := (bx.min.y + bx.max.y) / 2; let cz := (bx.min.z + bx.max.z) / 2
+    let N := pl.normal.x * cx + pl.normal.y * cy + pl.normal.z * cz
+    let E := sabs pl.normal.x * (bx.max.x - cx) + sabs pl.normal.y * (bx.max.y - cy) + sabs pl.normal.z * (bx.max.z - cz)
+    N - E ≤ pl.normal.x * q.x + pl.normal.y * q.y + pl.normal.z * q.z ∧
+    pl.normal.x * q.x + pl.normal.y * q.y + pl.normal.z * q.z ≤ N + E := by
+  obtain ⟨x0, x1, y0, y1, z0, z1⟩ := hq
+  have hx := mul_sub_le_abs_mul (a := pl.normal.x) (abs_sub_center_le x0 x1)
+  have hy := mul_sub_le_abs_mul (a := pl.normal.y) (abs_sub_center_le y0 y1)
+  have hz := mul_sub_le_abs_mul (a := pl.normal.z) (abs_sub_center_le z0 z1)
+  simp only [sabs_eq_abs]
+  constructor <;> linarith [hx.1, hx.2, hy.1, hy.2, hz.1, hz.2]
+theorem box_out (pl : Plane3 α) (bx : Box3 α) (q : V3 α) (hq : boxMem bx q) (h : 0 ≤ boxTerm pl bx (-1)) :
+    ¬ planeEval pl q < 0 := by
+  have := (box_bounds pl bx q hq).1
+  simp only [boxTerm, planeEval, not_lt] at h ⊢ this
+  linarith
+theorem box_in (pl : Plane3 α) (bx : Box3 α) (q : V3 α) (hq : boxMem bx q) (h : boxTerm pl bx 1 < 0) :
+    planeEval pl q < 0 := by
+  have := (box_bounds pl bx q hq).2
+  simp only [boxTerm, planeEval] at h ⊢ this
+  linarith
+/-- isVisible (sphere) = false ⇒ no point of the ball is strictly inside all six planes -/
+theorem ftSphere_visible_false (P : Planes6 α) (s : Sphere3 α) (hunit : normalsLeOne P) (hr : 0 ≤ s.radius)
+    (h : ftSphere P s (-1) = false) (q : V3 α) (hq : sphereMem s q) : ¬ strictlyInAllPlanes P q := by
+  simp only [ftSphere, chain6] at h
+  rw [six_chain_false] at h
+  obtain ⟨u0, u1, u2, u3, u4, u5⟩ := hunit
+  rintro ⟨s0, s1, s2, s3, s4, s5⟩
+  simp only [sphereTerm, neg_one_mul] at h
+  rcases h with h | h | h | h | h | h
+  · exact sphere_out _ s q u0 hr hq (by linarith) s0
+  · exact sphere_out _ s q u1 hr hq (by linarith) s1
+  · exact sphere_out _ s q u2 hr hq (by linarith) s2
+  · exact sphere_out _ s q u3 hr hq (by linarith) s3
+  · exact sphere_out _ s q u4 hr hq (by linarith) s4
+  · exact sphere_out _ s q u5 hr hq (by linarith) s5
+/-- completelyContains (sphere) = true ⇒ every point of the ball is strictly inside all six planes -/
+theorem ftSphere_contains_true (P : Planes6 α) (s : Sphere3 α) (hunit : normalsLeOne P) (hr : 0 ≤ s.radius)
+    (h : ftSphere P s 1 = true) (q : V3 α) (hq : sphereMem s q) : strictlyInAllPlanes P q := by
+  simp only [ftSphere, chain6] at h
+  rw [six_chain_true] at h
+  obtain ⟨u0, u1, u2, u3, u4, u5⟩ := hunit
+  simp only [sphereTerm, one_mul] at h
+  obtain ⟨h0, h1, h2, h3, h4, h5⟩ := h
+  exact ⟨sphere_in _ s q u0 hr hq h0, sphere_in _ s q u1 hr hq h1, sphere_in _ s q u2 hr hq h2,
+         sphere_in _ s q u3 hr hq h3, sphere_in _ s q u4 hr hq h4, sphere_in _ s q u5 hr hq h5⟩
+/-- isVisible (box) = false ⇒ no point of the box is strictly inside all six planes (an empty box has no points) -/
+theorem ftBox_visible_false (P : Planes6 α) (bx : Box3 α) (h : ftBox P bx (-1) = false) (q : V3 α) (hq : boxMem bx q) :
+    ¬ strictlyInAllPlanes P q := by
+  obtain ⟨x0, x1, y0, y1, z0, z1⟩ := id hq
+  have e0 : ¬ bx.max.x < bx.min.x := not_lt.mpr (le_trans x0 x1)
+  have e1 : ¬ bx.max.y < bx.min.y := not_lt.mpr (le_trans y0 y1)
+  have e2 : ¬ bx.max.z < bx.min.z := not_lt.mpr (le_trans z0 z1)
+  simp only [ftBox, if_neg e0, if_neg e1, if_neg e2, chain6] at h
+  rw [six_chain_false] at h
+  rintro ⟨s0, s1, s2, s3, s4, s5⟩
+  rcases h with h | h | h | h | h | h
+  · exact box_out _ bx q hq h s0
+  · exact box_out _ bx q hq h s1
+  · exact box_out _ bx q hq h s2
+  · exact box_out _ bx q hq h s3
+  · exact box_out _ bx q hq h s4
+  · exact box_out _ bx q hq h s5
+/-- completelyContains (box) = true ⇒ every point of the box is strictly inside all six planes -/
+theorem ftBox_contains_true (P : Planes6 α) (bx : Box3 α) (h : ftBox P bx 1 = true) (q : V3 α) (hq : boxMem bx q) :
+    strictlyInAllPlanes P q := by
+  simp only [ftBox] at h
+  split_ifs at h with e0 e1 e2
+  simp only [chain6] at h
+  rw [six_chain_true] at h
+  obtain ⟨h0, h1, h2, h3, h4, h5⟩ := h
+  exact ⟨box_in _ bx q hq h0, box_in _ bx q hq h1, box_in _ bx q hq h2, box_in _ bx q hq h3, box_in _ bx q hq h4,
+         box_in _ bx q hq h5⟩
+/-- an empty box is never visible and never contained -/
+theorem ftBox_empty (P : Planes6 α) (bx : Box3 α) (sgn : α) (h : boxEmpty bx) : ftBox P bx sgn = false := by
+  simp only [ftBox]
+  rcases h with h | h | h <;> split_ifs <;> first | rfl | exact absurd h ‹_›
 
 end ImathVerif.C16
